@@ -601,7 +601,7 @@ func main() {
 	r := rng.New(*seed)
 	nprog, ncfg, nidlgen := 24, 3, 6
 	if *tier == "thorough" {
-		nprog, ncfg, nidlgen = 250, 6, 40
+		nprog, ncfg, nidlgen = 200, 5, 30
 	}
 	if *only != "" {
 		nprog, nidlgen = 0, 0
